@@ -429,7 +429,7 @@ def visit_counts(fn, target, variant, train):
 
 def generate(tier, rng):
     quick = tier != 'thorough'
-    kmax = 2 if quick else 40
+    kmax = 2 if quick else 12
     # ---- line-level crash points, deep_lift_shap under several batchings
     variants = [{'bs': 1}, {'bs': 3, 'args': True}, {'bs': 4, 'refs': 'tensor'}]
     if not quick:
@@ -478,7 +478,7 @@ def generate(tier, rng):
             yield {'kind': 'forward', 'fn': name, 'k': 10 ** 6, 'train': mode}
     # ---- histories on a shared model vs fresh copies
     names = list(drivers())
-    nh = 12 if quick else 120
+    nh = 12 if quick else 60
     for _ in range(nh):
         calls = [rng.choice(names) for _i in range(rng.randint(2, 4))]
         variant = rng.choice([None, {'invalid': 'N'}, {'target': 7}, {'bs': 1}])
